@@ -470,6 +470,61 @@ def retNotTuple : RetShape → Bool
   | .tuple => false
   | _ => true
 
+/-! ## one connection, several requests: whose request is it?
+
+  `deferring_http_channel.found_terminator` hands whatever arrives to `channel.current_request` when that is set and
+  cracks a new request header otherwise (generated `chanDispatchStale`); dispatching a request sets it (generated
+  `dispatchSetsCurrent`); the two places that finish a response reset it: `deferring_http_request.done()` for an answer
+  given at once (and for error responses), `DeferredXMLRPCResponse.getresponse()` for an answer given later — each under
+  the condition the generated `doneClears` / `defRespClears` state in terms of the response's close flag.  A request
+  whose header reaches the previous request instead of being cracked is answered `400 Bad Request` (the old collector
+  appends it to the old body and parses the lot). -/
+
+structure Req where
+  deferred : Bool      -- the method answered with a callback (DeferredXMLRPCResponse) / at once (request.done())
+  closeIt : Bool       -- the response says `Connection: close` (HTTP/1.0 without keep-alive, HTTP/1.1 with close)
+deriving DecidableEq, Repr
+
+structure Chan where
+  current : Bool       -- `channel.current_request` is set
+  isOpen : Bool        -- the server has not closed the connection
+deriving DecidableEq, Repr
+
+def Chan.fresh : Chan := { current := false, isOpen := true }
+
+inductive Served
+  | answered           -- cracked as a new request and dispatched to the handler
+  | stale              -- handed to the request answered before: HTTP 400
+deriving DecidableEq, Repr
+
+/-- the channel with the two finishers abstracted: `cd`/`cr` = when done() / getresponse() reset `current_request` -/
+def finishWith (cd cr : Bool → Bool) (r : Req) (c : Chan) : Chan :=
+  let clears := if r.deferred then cr r.closeIt else cd r.closeIt
+  { current := c.current && !clears, isOpen := c.isOpen && !r.closeIt }
+
+def serveWith (cd cr : Bool → Bool) (r : Req) (c0 : Chan) : Served × Chan :=
+  let c := if c0.isOpen then c0 else Chan.fresh          -- the server hung up: the client connects anew
+  if chanDispatchStale c.current then
+    -- the old request answers 400 through error() → done(), without a close flag
+    (.stale, { c with current := c.current && !cd false })
+  else
+    (.answered, finishWith cd cr r { c with current := dispatchSetsCurrent })
+
+def serveAllWith (cd cr : Bool → Bool) : List Req → Chan → List Served
+  | [], _ => []
+  | r :: rest, c => let x := serveWith cd cr r c; x.1 :: serveAllWith cd cr rest x.2
+
+/-- the code as it is: the generated conditions -/
+def serveAll (reqs : List Req) (c : Chan) : List Served := serveAllWith doneClears defRespClears reqs c
+
+/-- what a raised `RPCError` becomes on the path of an answer given at once (`continue_request`) / later (`more`): a
+    fault response iff the handler builds an `xmlrpclib.Fault` from the error's code and text (generated
+    `rpcErrorAnswers`) and `xmlrpc_marshal` takes a Fault for a fault (generated `marshal_g0`) -/
+def raisedBecomesFault (deferred : Bool) : Bool :=
+  match rpcErrorAnswers.lookup (if deferred then "more" else "continue_request") with
+  | some (ctor, args) => ctor == "xmlrpclib.Fault" && args == ["err.code", "err.text"] && !marshal_g0 true false
+  | none => false
+
 /-! ## line protocol
   case rpc <entry>*        entry = <hexns>  |  <hexns>:<hexattr>:o  |  <hexns>:<hexattr>:m<min>,<max>,<beh>
                            beh   = v<id> | f<code> | x | t | d<k>,<final>      final = v<id> | f<code> | x
@@ -694,6 +749,19 @@ def rpcOps (tbl : Table (Method Log Int)) (s : Log) : List String → List Strin
                      | .value => "value"
                      | .element => "element"
                      | .assertion => "assert")
+       | none => "bad-op") :: rpcOps tbl s rest
+    | ["conn", items] =>
+      let parse (t : String) : Option Req :=
+        match t.toList with
+        | [k, c] =>
+          if (k = 'd' || k = 'i') && (c = '0' || c = '1') then some { deferred := k == 'd', closeIt := c == '1' } else none
+        | _ => none
+      (match (items.splitOn ",").mapM parse with
+       | some reqs => ",".intercalate ((serveAll reqs Chan.fresh).map fun x => match x with | .answered => "a" | .stale => "s")
+       | none => "bad-op") :: rpcOps tbl s rest
+    | ["raised", d] =>
+      (match parseBit d with
+       | some d => if raisedBecomesFault d then "fault" else "value"
        | none => "bad-op") :: rpcOps tbl s rest
     | ["collect", ps] =>
       (match parsePieces ps with
